@@ -50,8 +50,7 @@ class Nist256p1Point(IPoint):
             IPoint: IPoint object
         """
         try:
-            return cls(ellipticcurve.PointJacobi.from_bytes(curve_256,
-                                                            point_bytes))
+            point_obj = ellipticcurve.PointJacobi.from_bytes(curve_256, point_bytes)
         except keys.MalformedPointError as ex:
             raise ValueError("Invalid point key bytes") from ex
         # ECDSA < 0.17 doesn't have from_bytes method for PointJacobi
@@ -60,6 +59,10 @@ class Nist256p1Point(IPoint):
                 BytesUtils.ToInteger(point_bytes[:EcdsaKeysConst.POINT_COORD_BYTE_LEN]),
                 BytesUtils.ToInteger(point_bytes[EcdsaKeysConst.POINT_COORD_BYTE_LEN:])
             )
+        # The raw and uncompressed encodings are not checked by the library: the point shall lie on the curve
+        if not curve_256.contains_point(point_obj.x(), point_obj.y()):
+            raise ValueError("Invalid point key bytes (point not on the curve)")
+        return cls(point_obj)
 
     @classmethod
     def FromCoordinates(cls,
@@ -75,6 +78,8 @@ class Nist256p1Point(IPoint):
         Returns:
             IPoint: IPoint object
         """
+        if x < 0 or y < 0 or x >= curve_256.p() or y >= curve_256.p() or not curve_256.contains_point(x, y):
+            raise ValueError("Invalid point coordinates")
         return cls(
             ellipticcurve.PointJacobi.from_affine(
                 ellipticcurve.Point(curve_256, x, y)
